@@ -122,6 +122,12 @@ func init() {
 			disc := iv.RT.VerifDiscoveryMembers()
 			sort.Slice(disc, func(i, j int) bool { return disc[i].Name < disc[j].Name })
 			s := fmt.Sprintf("m%d:coord=%s,disc=%s,ring=%s,table=%s", i, fmtMem(iv.RT.VerifCoordinator()), fmtMems(disc), fmtMems(iv.RT.VerifRingMembers()), strings.Join(rows, "~"))
+			// keys this member holds per partition (primary copies)
+			var pl []string
+			for p := 0; p < parts; p++ {
+				pl = append(pl, strconv.Itoa(iv.Primary.PartitionByID(uint64(p)).Length()))
+			}
+			s += ",plen=" + strings.Join(pl, ";")
 			if iv.RT.VerifIsCoordinator() {
 				loads, avg := iv.RT.VerifLoads()
 				var ls []string
